@@ -27,7 +27,7 @@ var parts = map[string]func(*vk.Ctx){
 
 func main() { vk.RunPart(parts) }
 
-const ruleText = "breadth-first search over all insertion histories (29-event alphabet, two authors, timestamps {1,2,3}) up to the depth, per capacity, " +
+const ruleText = "breadth-first search over all insertion histories (31-event alphabet, two authors, timestamps {1,2,3}) up to the depth, per capacity, " +
 	"each history replayed on a fresh real EventCache, states merged on the white-box dump of the complete internal state (evs, evsCreatedAt, every index bucket, deletion registry); " +
 	"on every transition the C04/C05 step relation (B, e, flag, A) written from the property statements; at unbounded capacity additionally author non-interference by projection; " +
 	"in every state the query battery against the tie-tolerant limit-newest union over the retained set (refmodel.MatchFilter) and the same battery on the Dump->Restore twin"
@@ -118,7 +118,7 @@ func cacheBFS(c *vk.Ctx) {
 	c.SetExtra("workers", x.workers)
 	c.SetExtra("dump_restore_in_every_state", x.doRestore)
 
-	c.Assume("histories are bounded by the depth; events come from the fixed 29-event alphabet (ids, signatures are not verified by the cache)")
+	c.Assume("histories are bounded by the depth; events come from the fixed 31-event alphabet (ids, signatures are not verified by the cache)")
 	c.Assume("states are merged on SHA-256 of the complete internal dump; merging is sound because EventCache is deterministic (asserted: every new state is replayed a second time and must reproduce flags and dump)")
 	c.Assume("the address of an addressable event without d tag is three-valued: it may share the address of the d=\"\" event of the same kind and author or be an address of its own (each transition is accepted if one reading allows it); under both readings it belongs to its author and two d-less events of one author and kind are one address")
 	c.Assume("unclaimed, never reported: survivor of equal created_at versions, whether a d-less addressable event and the d=\"\" event of the same kind and author are one address or two, choice among tied events at a limit cut or as eviction victim, flag of an ephemeral event, `a` references to plain replaceable kinds, `a` references to a version newer than the request (NIP-09), eviction ordered before the removals of a deletion request")
